@@ -82,6 +82,18 @@ static Obj objs[MAXO]; static int nobjs; static int uniq;
 static void add_key (const char *userkey) {       /* remember the platform keys this name can produce (for the /dev/shm listing) */
 	(void) userkey;
 }
+/* signals around a timed wait, reproduced at the system-call boundary: poll reports EINTR at once (a signal early in the wait) or
+ * after the whole timeout has passed (a signal arriving just as the wait ends) */
+#include <poll.h>
+static int poll_late_eintr, poll_early_eintr;
+int __real_poll (struct pollfd *, nfds_t, int);
+int __wrap_poll (struct pollfd *f, nfds_t n, int t) {
+	int r;
+	if (in_lib && poll_early_eintr > 0) { poll_early_eintr--; errno = EINTR; return -1; }
+	r = __real_poll (f, n, t);
+	if (in_lib && r == 0 && poll_late_eintr > 0) { poll_late_eintr--; errno = EINTR; return -1; }
+	return r;
+}
 static pint icmp (pconstpointer a, pconstpointer b) { return (pint) ((intptr_t) a - (intptr_t) b); }
 static ppointer thr_fn (ppointer arg) { (void) arg; return NULL; }
 static PSocketAddress *loop0 (void) { return p_socket_address_new ("127.0.0.1", 0); }
@@ -124,6 +136,19 @@ static int acquire (const char *k, int want_ok, Obj *o) {
 		s = p_socket_accept (l, &err); ok = (s == NULL) != want_ok ? 1 : 1; if (s) p_socket_free (s);
 		o->a = l; ok = want_ok;   /* the object exists either way; 'fail' refers to the timed-out call */
 	}
+	else if (!strcmp (k, "sock_intr")) {     /* timed waits that are interrupted by signals and then run out of time: failing calls on live objects */
+		PSocket *u = p_socket_new (P_SOCKET_FAMILY_INET, P_SOCKET_TYPE_DATAGRAM, P_SOCKET_PROTOCOL_UDP, NULL), *l = p_socket_new (P_SOCKET_FAMILY_INET, P_SOCKET_TYPE_STREAM, P_SOCKET_PROTOCOL_TCP, NULL);
+		PSocketAddress *a = loop0 (); char buf[4]; PError *e2 = NULL; PSocket *s;
+		p_socket_bind (u, a, FALSE, NULL); p_socket_bind (l, a, FALSE, NULL); p_socket_address_free (a); p_socket_listen (l, NULL);
+		p_socket_set_timeout (u, 25); p_socket_set_timeout (l, 25);
+		poll_late_eintr = 1; p_socket_receive (u, buf, 4, &e2); if (e2) { p_error_free (e2); e2 = NULL; }
+		poll_early_eintr = 2; p_socket_receive_from (u, NULL, buf, 4, &e2); if (e2) { p_error_free (e2); e2 = NULL; }
+		poll_early_eintr = 1; poll_late_eintr = 1; p_socket_receive (u, buf, 4, NULL);
+		poll_late_eintr = 1; s = p_socket_accept (l, &e2); if (s) p_socket_free (s); if (e2) { p_error_free (e2); e2 = NULL; }
+		poll_late_eintr = 1; p_socket_io_condition_wait (u, P_SOCKET_IO_CONDITION_POLLIN, &e2); if (e2) { p_error_free (e2); e2 = NULL; }
+		poll_late_eintr = poll_early_eintr = 0;
+		o->a = l; o->b = u; ok = want_ok;
+	}
 	else if (!strcmp (k, "bind_used")) {      /* bind on a port that is in use fails */
 		PSocket *l = p_socket_new (P_SOCKET_FAMILY_INET, P_SOCKET_TYPE_STREAM, P_SOCKET_PROTOCOL_TCP, NULL), *m = p_socket_new (P_SOCKET_FAMILY_INET, P_SOCKET_TYPE_STREAM, P_SOCKET_PROTOCOL_TCP, NULL);
 		PSocketAddress *a = loop0 (), *la; pboolean r;
@@ -159,7 +184,7 @@ static void release (Obj *o) {
 	else if (!strcmp (k, "error")) p_error_free (o->a);
 	else if (!strcmp (k, "dir")) p_dir_free (o->a);
 	else if (!strcmp (k, "sockaddr")) p_socket_address_free (o->a);
-	else if (!strcmp (k, "tcp") || !strcmp (k, "tcp_timeout") || !strcmp (k, "bind_used") || !strcmp (k, "udp")) { if (o->c) { p_socket_close (o->c, NULL); p_socket_free (o->c); } if (o->b) p_socket_free (o->b); if (o->a) { p_socket_shutdown (o->a, TRUE, TRUE, NULL); p_socket_free (o->a); } }
+	else if (!strcmp (k, "tcp") || !strcmp (k, "tcp_timeout") || !strcmp (k, "sock_intr") || !strcmp (k, "bind_used") || !strcmp (k, "udp")) { if (o->c) { p_socket_close (o->c, NULL); p_socket_free (o->c); } if (o->b) p_socket_free (o->b); if (o->a) { p_socket_shutdown (o->a, TRUE, TRUE, NULL); p_socket_free (o->a); } }
 	else if (!strcmp (k, "sem")) { p_semaphore_take_ownership (o->a); p_semaphore_free (o->a); }
 	else if (!strcmp (k, "sem2")) { if (o->a) p_semaphore_free (o->a); if (o->b) p_semaphore_free (o->b); if (o->c) { p_semaphore_take_ownership (o->c); p_semaphore_free (o->c); } }
 	else if (!strcmp (k, "shm")) { p_shm_take_ownership (o->a); p_shm_free (o->a); }
